@@ -16,15 +16,17 @@ from vlib.runner import HarnessError, ShardResult, Violation
 ID = "C12"
 LEVEL = "exploration"
 RULE = ("a case is (scripts for up to 3 connections on one sid over {config, upload, search, close}, a schedule = sequence of choices "
-        "among the enabled events open(c) / step(c) / release(cleanup delay)); the harness owns every event: the server's only "
-        "timing source (the 1 s cleanup sleep) is a gate released by the schedule, the transport is an in-memory duplex with the "
+        "among the enabled events open(c) / step(c) / release(cleanup delay) / timeout (a wait_for the server armed expires; absent unless the code arms one) "
+        "/ noise (once per schedule: 130-300 connections of OTHER services open on the same server)); the harness owns every event: the server's "
+        "timing sources (asyncio.sleep and wait_for timeouts in the server modules) are a gate and a timer controller driven by the schedule, the transport is an in-memory duplex with the "
         "exact websocket surface the server uses, and the loop is run to quiescence after every event. Oracle (history "
         "invariants): (S) no config/upload/result reply reaches connection j while an earlier-opened connection is neither closed "
         "by the harness nor by the server, and such a connection receives a control ('wait') message before any reply (W); (M) after closing everything and releasing all gates, a probe connection's init-echo "
         "state >= every state whose transition was acknowledged with ok:True; (I) probe searches answer from the acknowledged "
         "index; (L) the stored config and index are acknowledged ones. Exhaustive over all schedules of 2 connections with "
         "scripts of length <= 1 (+ selected length-2 scripts) and 3 connections with scripts of length <= 1 in quick; all scripts "
-        "of length <= 2 / <= 1 in thorough; Hypothesis draws 3 connections x scripts <= 3. Every violation is re-executed over real "
+        "of length <= 2 / <= 1 in thorough; Hypothesis draws 3 connections x scripts <= 3 (a quarter with background traffic); every schedule of 4 script sets is also enumerated "
+        "with the background burst as one more event. Every violation is re-executed over real "
         "loopback sockets before it is reported. Non-trivial = at least two connections overlap in time and at least one "
         "transition is acknowledged; distinct = distinct (scripts, executed event sequence).")
 ASSUMPTIONS = ["interleavings below the asyncio event level (OS socket reordering, multi-process servers) are out of reach",
@@ -78,6 +80,8 @@ async def execute(case, transport="mem"):
         conns = [None] * len(scripts)
         pos = [0] * len(scripts)
         ack = {"state": 0, "cfg": set(), "edb": set()}
+        noise_done = False
+        noise_conns = []
         k = 0
         while True:
             enabled = []
@@ -89,7 +93,12 @@ async def execute(case, transport="mem"):
                     enabled.append(("step", c))
             if world.gate.pending:
                 enabled.append(("release",))
-            if not enabled:
+            if world.timers.pending:
+                enabled.append(("timeout",))   # a timeout the server armed (wait_for) expires now: only exists if the code arms one
+            if case.get("noise") and not noise_done and any(c is not None for c in conns) and any(
+                    c is not None and c.client_closed_at is None for c in conns):
+                enabled.append(("noise",))
+            if not enabled or (len(enabled) == 1 and enabled[0] == ("noise",)):
                 break
             ch = choices[k] % len(enabled) if k < len(choices) else 0
             branching.append((ch, len(enabled)))
@@ -113,22 +122,40 @@ async def execute(case, transport="mem"):
                     await conns[c].send("token", tok, token_digest=hashlib.sha256(tok).digest())
                 elif item == "close":
                     await conns[c].close()
+            elif ev[0] == "timeout":
+                world.timers.fire_one()
+                executed.append(["timeout"])
+            elif ev[0] == "noise":
+                # background traffic of OTHER services in the same server process: case["noise"] other service ids connect
+                # (and stay connected until the end of the schedule)
+                noise_done = True
+                for i in range(case["noise"]):
+                    nc = world.new_conn(hashlib.sha256(b"c12-noise-%d" % i).hexdigest())
+                    await nc.open()
+                    noise_conns.append(nc)
+                    if i % 16 == 15:
+                        await world.quiesce()
+                executed.append(["noise", case["noise"]])
             else:
                 world.gate.release_one()
                 executed.append(["release"])
+            await world.tick()
+        for nc in noise_conns:
+            await nc.close()
+        if noise_conns:
             await world.tick()
         # ---- teardown: close everything (in index order), release every gate -------------------------------
         for c in conns:
             if c is not None and c.client_closed_at is None and c.server_closed_at is None:
                 await c.close()
                 await world.tick()
-        for _ in range(40):
+        for _ in range(40 + 2 * len(noise_conns)):
             if not world.gate.pending:
                 await world.tick()
                 if not world.gate.pending:
                     break
             world.gate.release_one()
-            await world.tick()
+            await (world.tick() if not noise_conns else world.quiesce())
         # ---- history invariant (S) and acknowledgements ---------------------------------------------------------
         live = [c for c in conns if c is not None]
         overlap = False
@@ -253,12 +280,14 @@ def run_case(case):
 
 
 # ---------------------------------------------------------------------------------------------------------
-def enumerate_schedules(scripts, limit=None):
+def enumerate_schedules(scripts, limit=None, noise=0):
     """stateless DFS over all schedules of the given scripts (each schedule is a full re-execution)"""
     prefix = []
     n = 0
     while True:
         case = {"scripts": scripts, "choices": list(prefix)}
+        if noise:
+            case["noise"] = noise
         yield case
         n += 1
         if limit and n >= limit:
@@ -293,7 +322,10 @@ def st_case(draw):
     scripts = [draw(st.lists(st.sampled_from(ITEMS), max_size=3)) for _ in range(n)]
     scripts = [s[:s.index("close") + 1] if "close" in s else s for s in scripts]
     choices = draw(st.lists(st.integers(0, 5), max_size=30))
-    return {"scripts": scripts, "choices": choices}
+    case = {"scripts": scripts, "choices": choices}
+    if draw(st.integers(0, 3)) == 0:
+        case["noise"] = draw(st.sampled_from([130, 200, 300]))
+    return case
 
 
 def confirm(res):
@@ -301,6 +333,8 @@ def confirm(res):
     kept = []
     for v in res.violations:
         case = {"scripts": v["case"]["scripts"], "choices": v["case"]["choices"]}
+        if v["case"].get("noise"):
+            case["noise"] = v["case"]["noise"]
         try:
             run_case(case)
         except Violation as v2:
@@ -320,10 +354,14 @@ def body(case, res):
     finally:
         nt = bool(info and info["overlap"] and info["ack"] >= 1)
         cl = ["connections:%d" % len(case["scripts"])]
+        if info and any(e[0] == "noise" for e in info["executed"]):
+            cl.append("background_traffic_of_other_services")
+        if info and any(e[0] == "timeout" for e in info["executed"]):
+            cl.append("server_timeout_fired")
         if info:
             cl.append("overlap" if info["overlap"] else "no_overlap")
             cl.append("ack_state:%d" % info["ack"])
-        res.count([case["scripts"], info["executed"] if info else case["choices"]], nt, cl,
+        res.count([case["scripts"], info["executed"] if info else case["choices"], case.get("noise", 0)], nt, cl,
                   sample={"scripts": case["scripts"], "events": info["executed"] if info else None})
 
 
@@ -345,12 +383,17 @@ def fidelity_body(case, res):
             case["scripts"], a["executed"], a["traces"], b["traces"]))
 
 
+# script sets whose every schedule is also enumerated with a burst of 130 connections of OTHER services as one more event
+NOISE_SCRIPTS = [[["config"], ["upload"]], [["config", "upload"], ["search"]], [[], ["config"]], [["config"], ["close"], ["upload"]]]
+
+
 def shards(tier):
     pairs, triples = script_sets(tier)
     nsh = 8 if tier == "quick" else 14
     out = [{"kind": "exhaustive", "part": i, "of": nsh} for i in range(nsh)]
     out += [{"kind": "hyp", "i": i} for i in range(2 if tier == "quick" else 2)]
     out += [{"kind": "fidelity", "i": i} for i in range(1 if tier == "quick" else 4)]
+    out += [{"kind": "noise", "part": i} for i in range(len(NOISE_SCRIPTS))]
     return out
 
 
@@ -365,7 +408,11 @@ def run_shard(spec, seed, tier):
         return res
     pairs, triples = script_sets(tier)
     allscripts = pairs + triples
-    mine = [s for i, s in enumerate(allscripts) if i % spec["of"] == spec["part"]]
+    noise = 0
+    if spec["kind"] == "noise":
+        mine, noise = [NOISE_SCRIPTS[spec["part"]]], 130
+    else:
+        mine = [s for i, s in enumerate(allscripts) if i % spec["of"] == spec["part"]]
     first = {}
     nsched = 0
     violating_sets = 0
@@ -374,19 +421,28 @@ def run_shard(spec, seed, tier):
             res.notes.append("enumeration stopped early: three script sets already violate an invariant")
             res.exhaustive = False
             break
-        for case in enumerate_schedules(scripts):
+        for case in enumerate_schedules(scripts, noise=noise):
             nsched += 1
             try:
                 body(case, res)
             except Violation as v:
                 if v.bucket not in first or len(json.dumps(case["scripts"])) < len(json.dumps(first[v.bucket][0]["scripts"])):
                     c = {"scripts": case["scripts"], "choices": case["choices"]}
+                    if case.get("noise"):
+                        c["noise"] = case["noise"]
                     first[v.bucket] = (c, str(v))
                 # continue the enumeration below this schedule is impossible without its branching factors: stop this script set
                 violating_sets += 1
                 break
     if res.exhaustive is None:
         res.exhaustive = True
+    if spec["kind"] == "noise":
+        res.extra["noise_schedules"] = nsched
+        res.extra["noise_bounds"] = "every schedule of %d script sets with a burst of 130 connections of other services as one more event" % len(NOISE_SCRIPTS)
+        for bucket, (case, msg) in first.items():
+            res.add_violation(case, msg, bucket)
+        confirm(res)
+        return res
     res.extra["exhaustive_schedules"] = nsched
     res.extra["exhaustive_script_sets"] = len(mine)
     res.extra["exhaustive_bounds"] = ("every schedule (interleaving of opens, script steps and cleanup releases) of: 2 connections with "
